@@ -1363,7 +1363,18 @@ impl<F: VfsFile> BPlusTree<F> {
 	pub fn with_file(file: F, compare: Arc<dyn Comparator>) -> Result<Self> {
 		let storage_size = file.size()?;
 
-		let (header, cache) = if storage_size == 0 {
+		// A new tree is initialised root page first, header page last (see below): a file
+		// whose magic is still all zeros is an initialisation that a crash cut short, and
+		// is initialised again.
+		let fresh = storage_size == 0 || {
+			let mut magic = [0u8; 8];
+			storage_size >= magic.len() as u64 && {
+				file.read_at(0, &mut magic)?;
+				magic == [0u8; 8]
+			}
+		};
+
+		let (header, cache) = if fresh {
 			// Initialize a new B+Tree
 			let root_offset = PAGE_SIZE as u64;
 
@@ -1409,16 +1420,18 @@ impl<F: VfsFile> BPlusTree<F> {
 		};
 
 		// Initialize storage if it's a new tree
-		if storage_size == 0 {
+		if fresh {
+			// Create initial root node first: until the header (written last) is on disk
+			// the file reads as uninitialised, never as a header without its root page
+			let root = LeafNode::new(tree.header.root_offset);
+			tree.write_node(&NodeType::Leaf(root))?;
+			tree.file.sync_data()?;
+
 			let header_bytes = tree.header.serialize();
 			let mut buffer = vec![0u8; PAGE_SIZE];
 			buffer[..header_bytes.len()].copy_from_slice(&header_bytes);
 
 			tree.file.write_at(0, &buffer)?;
-
-			// Create initial root node
-			let root = LeafNode::new(tree.header.root_offset);
-			tree.write_node(&NodeType::Leaf(root))?;
 			tree.file.sync_data()?;
 		} else {
 			// Read root node into cache
